@@ -7,6 +7,7 @@ The selection dag is splitted into trees by this module.
 import logging
 from .. import ir
 from ..utils.tree import Tree
+from ..utils.collections import OrderedSet
 
 
 class DagSplitter:
@@ -46,7 +47,7 @@ class DagSplitter:
     def split_group_into_trees(self, sgraph, function_info, group):
         nodes = sgraph.get_group(group)
         # Get rid of ENTRY and EXIT:
-        nodes = set(
+        nodes = OrderedSet(
             filter(lambda x: x.name.op not in ["ENTRY", "EXIT"], nodes)
         )
 
@@ -179,9 +180,11 @@ def topological_sort_modified(nodes, start):
 
     # Start to visit with pre-knowledge of the last node!
     visit(start)
-    while unmarked:
-        node = next(iter(unmarked))
-        visit(node)
+    # Visit the remaining nodes in the order of the nodes in the group (and
+    # not in the iteration order of a set of nodes hashed by address):
+    for node in nodes:
+        if node in unmarked:
+            visit(node)
 
     # Hack: move tail again to tail:
     if L:
